@@ -232,6 +232,20 @@ func init() {
 			}
 		},
 	}
+	plans["C07"] = &Plan{
+		Level: "exploration",
+		Rule: "one long sequence of hostile inputs per worker process (random bytes, token soup, mutated/truncated/valid documents, block documents, raw and escaped string bodies, documents nested 2047..8192 and 65535/65536 levels around every documented limit with 5 push shapes x 7 cores x complete/partial/no closers x a sibling after the deep member, nesting of 5000..300000 (thorough: 2,000,000) levels, strings/numbers/objects/white space of 1e3..1e6 bytes) each through ~45 entry points in the same process (Valid, Unmarshal into 15 destination types under 4 configurations, Skip, decoder.Decoder twice, StreamDecoder loops with 3 read sizes, Get with 8 paths + Raw/Interface/MarshalJSON, NewRaw+LoadAll, Searcher+Load+ForEach+SortKeys, Parser.Parse, Preorder, string routines, Marshal of RawMessage/Number/strings), plus every 5th case a hostile Go value (pointer/map/slice/interface cycles, values nested up to 100000 (thorough 1e6) levels, long linked lists, Marshalers returning garbage, chan/func, random catalogue values) through 7 encoding entry points. Oracles: recover() around every call (panic = violation); worker death (fault, stack exhaustion) reported with the input recorded just before; watchdog (hang = violation); a loop of successful stream Decodes must end within len+3 calls and a second Decode must advance; cycles must be reported as errors; for every error: Error()/Description() return, are <= 4096 bytes whatever the input size, Pos in [0,len(input)]",
+		Assumptions: []string{"the default maximum goroutine stack (1 GB) applies; a fatal runtime error is observed as the death of the worker", "only executions actually produced are decided"},
+		MinEvals:    6000, MinEvalsThorough: 400000,
+		HangIsViolation: true,
+		Runs: func(string) []*Run {
+			return []*Run{
+				{Name: "jit", Flavor: "plain", NBatch: n(8, 16), TimeoutS: n(900, 6000)},
+				{Name: "optdec-vm", Flavor: "plain", NBatch: n(4, 16), Env: []string{"SONIC_USE_OPTDEC=1", "SONIC_ENCODER_USE_VM=1"}, TimeoutS: n(900, 6000)},
+				{Name: "sse", Flavor: "plain", NBatch: n(2, 8), Env: []string{"SONIC_MODE=noavx2"}, TimeoutS: n(900, 6000)},
+			}
+		},
+	}
 	plans["C18"] = &Plan{
 		Level: "exploration",
 		Rule: "single-switch metamorphic relations: for a switch S and a random setting R of the 15 other switches, the same value/document is run with R and with R+S and the difference must be exactly S's documented effect: EscapeHTML == encoding/json.HTMLEscape(out_R); SortMapKeys changes member order only (and top-level map keys ascend); NoNullSliceOrMap == out_R of the value with nil slices/maps made empty; ValidateString(encode) == out_R with invalid UTF-8 replaced by \\ufffd; EncodeNullForInfOrNan == out_R of the value with NaN/Inf replaced by a sentinel, sentinel -> null, and no change without NaN/Inf; CompactMarshaler changes no token; NoQuoteTextMarshaler/NoValidateJSONMarshaler change nothing for types without such marshalers; NoEncoderNewline only removes the stream encoder's newline; UseInt64/UseNumber change only how numbers land in interface{}; CopyString/NoValidateJSONSkip change nothing on valid documents; DisallowUnknownFields agrees with encoding/json's DisallowUnknownFields on which documents have unknown keys and changes no accepted value; ValidateString(decode) changes nothing for clean strings and equals decoding the UTF-8-corrected document; UseUnicodeErrors changes nothing without lone surrogate escapes and never changes a value silently; CaseSensitive == encoding/json on the document without the keys that match only case-insensitively. Entry points: encoder.Encode/EncodeInto/MarshalToString/MarshalIndent/stream encoder vs Froze().Marshal, decoder.Decoder+SetOptions/UnmarshalFromString vs Froze().Unmarshal with the same switches. distinct = hash(switch, other switches, type, value/document)",
